@@ -154,7 +154,7 @@ func init() {
 		ID:       "C06",
 		Title:    "ExtractLicenses returns exactly the distinct terms of the expression",
 		Explorer: "E1 bounded-exhaustive tree enumeration, compositional oracle over the implementation's own single-term extraction + single-term canonical-form checks over all ids",
-		Rule: "trees: the C01 spaces S1 (<= N leaves over 4 atoms, two renderings) and S2 (<= 3 leaves over 12 rich terms + case re-spellings): set(Extract(e)) = union Extract(leaf), no duplicates, Satisfies(e, Extract(e)); " +
+		Rule: "trees (three renderings each): every shape and AND/OR labelling up to 8 (thorough 9) all-distinct leaves; the C01 spaces S1 (<= N leaves over 4 atoms, two renderings) and S2 (<= 3 leaves over 12 rich terms + case re-spellings): set(Extract(e)) = union Extract(leaf), no duplicates, Satisfies(e, Extract(e)); " +
 			"terms: every listed id in every valid spelling (and with WITH) + reference terms: exactly one element, valid, fixed point, mutual satisfaction, list casing, '+' and exception kept; " +
 			"state = expression or term; non-trivial = expressions with >= 2 distinct terms containing an OR (where expansion can lose terms) and all single-term checks with a suffix/+/WITH",
 		Assumptions: []string{"the canonical spelling of a leaf is delegated to the single-term call, which is itself checked against R-term's normaliser for every listed id"},
@@ -205,6 +205,9 @@ func c06Run(c *Ctx) {
 		if min != full {
 			texts = append(texts, min)
 		}
+		if x := t.RenderAssoc(atoms); x != full && x != min {
+			texts = append(texts, x)
+		}
 		for _, expr := range texts {
 			if !c.Begin(expr) {
 				continue
@@ -249,6 +252,20 @@ func c06Run(c *Ctx) {
 	for n := N + 1; n <= N+2; n++ {
 		for _, t := range deep[n] {
 			if !treeCase(t, c01Atoms2) {
+				return
+			}
+		}
+	}
+	// every shape and operator labelling with all-distinct leaves: a lost leaf cannot hide behind a repeat
+	maxShape := 8
+	if c.Thorough() {
+		maxShape = 9
+	}
+	c.Bound("S3", map[string]any{"max_leaves": maxShape, "leaves": "all distinct", "renderings": 3})
+	shapes := ShapesUpTo(maxShape)
+	for n := 2; n <= maxShape; n++ {
+		for _, t := range shapes[n] {
+			if !treeCase(t, distinctAtoms) {
 				return
 			}
 		}
